@@ -673,3 +673,61 @@ Proof.
   inversion W as [|? ? (_ & _ & C) _]; subst.
   destruct (str_eqb c dotdot) eqn:E; [|reflexivity]. apply str_eqb_eq in E. congruence.
 Qed.
+
+(* ---------------------------------------------------------------- translated sources (lex) *)
+Lemma wf_lex_comp c : wf_comp (stem c ++ ext_yyc).
+Proof.
+  repeat split; intros H.
+  - destruct (stem c); discriminate H.
+  - destruct (stem c) as [|x [|y r]]; discriminate H.
+  - destruct (stem c) as [|x [|y [|z r]]]; discriminate H.
+Qed.
+
+Lemma lex_name_wf l : wf_comps l -> wf_comps (lex_name l).
+Proof.
+  intros W. unfold lex_name. apply map_last_Forall; [|exact W]. intros c _. apply wf_lex_comp.
+Qed.
+
+Lemma lex_name_stripext l1 l2 :
+  l1 <> [] -> l2 <> [] -> lex_name l1 = lex_name l2 -> stripext l1 = stripext l2.
+Proof.
+  intros N1 N2 E. unfold lex_name, stripext in *. rewrite !map_last_split in * by assumption.
+  apply app_inj_tail in E. destruct E as [E1 E2]. apply app_inv_tail in E2. congruence.
+Qed.
+
+(* lex sources with different (absoluteness, directory components, stem) get different generated
+   sources, with (d = Some directory) and without (d = None) a directory *)
+Theorem lex_sources_distinct d s1 s2 o1 o2 :
+  (match d with Some d => wf_comps (pcomps d) | None => True end) ->
+  wf_comps (pcomps s1) -> wf_comps (pcomps s2) -> pcomps s1 <> [] -> pcomps s2 <> [] ->
+  reserved_free (lex_name (pcomps s1)) -> reserved_free (lex_name (pcomps s2)) ->
+  src_name s1 <> src_name s2 ->
+  lex_source_of true d s1 = Ok o1 -> lex_source_of true d s2 = Ok o2 -> o1 <> o2.
+Proof.
+  intros Wd W1 W2 N1 N2 F1 F2 NE H1 H2 EQ. subst o2. apply NE. clear NE.
+  unfold lex_source_of, lex_default_name in H1, H2.
+  destruct (reparse (name_root (proot s1)) _) as [n1| |] eqn:D1 in H1; try discriminate.
+  destruct (reparse (name_root (proot s2)) _) as [n2| |] eqn:D2 in H2; try discriminate.
+  apply reparse_ok in D1, D2. subst n1 n2. cbn [proot pcomps] in *. rewrite !name_root_idem in *.
+  pose proof (lex_name_wf _ W1) as V1. pose proof (lex_name_wf _ W2) as V2.
+  assert (K : P (name_root (proot s1)) (lex_name (pcomps s1)) = P (name_root (proot s2)) (lex_name (pcomps s2)) ->
+              src_name s1 = src_name s2).
+  { intros E. inversion E as [[ER EC]]. unfold src_name. rewrite ER. f_equal. now apply lex_name_stripext. }
+  destruct d as [d|].
+  - destruct (within true d _) as [q1| |] eqn:Q1 in H1; try discriminate.
+    destruct (within true d _) as [q2| |] eqn:Q2 in H2; try discriminate.
+    apply reparse_ok in H1, H2. rewrite H1 in H2. inversion H2 as [[ER EC]].
+    assert (q1 = q2).
+    { pose proof Q1 as S1. pose proof Q2 as S2. apply within_true_shape in S1, S2.
+      destruct S1 as [_ [[_ A]|(NA1 & SA1 & A)]], S2 as [_ [[_ B]|(NA2 & SA2 & B)]];
+        rewrite A, B in *; cbn in *; try congruence.
+      - exfalso. rewrite <- SA2 in ER. rewrite !name_root_idem in ER.
+        destruct (name_root (proot s2)); cbn in *; congruence.
+      - exfalso. rewrite <- SA1 in ER. rewrite !name_root_idem in ER.
+        destruct (name_root (proot s1)); cbn in *; congruence. }
+    subst q2. apply K.
+    exact (within_injective d (P (name_root (proot s1)) (lex_name (pcomps s1)))
+                            (P (name_root (proot s2)) (lex_name (pcomps s2))) q1 V1 V2 F1 F2 Q1 Q2).
+  - apply reparse_ok in H1, H2. rewrite H1 in H2. inversion H2 as [[ER EC]]. apply K.
+    rewrite !name_root_idem in ER. congruence.
+Qed.
